@@ -320,6 +320,35 @@ def mk_exponent(rank, ptype, override):
   return t
 
 
+def mk_exponent_companion(rank_a, rank_b):
+  """Two parameters of different rank: every statistic gets the exponent of ITS OWN parameter (2 x #preconditioned axes of
+  that parameter), whatever the other parameter is and in whatever order they come."""
+
+  def t(ctx, it):
+    m = it.load_module(D.DS)
+    PT = m.PreconditionerType
+    opt = m.distributed_shampoo(0.1, block_size=0, best_effort_shape_interpretation=False, precondtioner_type=PT.ALL)
+    env = opt.update.env.vars
+    seen = {}
+
+    def spy(states, step, statistics, num_statistics_per_state, original_shapes, exponents, max_size, prev):
+      seen["exponents"] = list(exponents)
+      seen["per_state"] = list(num_statistics_per_state)
+      return states
+
+    env["_pmap_compute_preconditioners"] = spy
+    pa = T.opaque("pa", tuple(spec.fresh_int(f"a{k}", lo=1, hi=4096) for k in range(rank_a)))
+    pb = T.opaque("pb", tuple(spec.fresh_int(f"b{k}", lo=1, hi=4096) for k in range(rank_b)))
+    st = opt.init({"a": pa, "b": pb})
+    env["_compute_preconditioners"]([st.stats["a"], st.stats["b"]], [pa, pb], T.asarray(spec.fresh_int("step", lo=0)))
+    want = [2 * rank_a] * rank_a + [2 * rank_b] * rank_b
+    got = seen.get("exponents", [])
+    ctx.oblige("_compute_preconditioners.post.every statistic gets the exponent of its own parameter (independent of the companions)",
+               len(got) == len(want) and all(sym.prove(g == w) for g, w in zip(got, want)), detail=f"ranks {rank_a},{rank_b}: {got}")
+
+  return t
+
+
 def mk_skip(rank, best_effort):
   """Which parameters are preconditioned at all (documentation of skip_preconditioning_rank_lt / _dim_size_gt): decided
   on the parameter's OWN shape - rank below the threshold, or some dimension above the size threshold."""
@@ -349,6 +378,8 @@ def tasks(tier):
   from contracts import c04
   ts.append(Task("preconditioners are refreshed on every multiple of the interval[symbolic]", c04.mk_precond_cadence("sym")))
   ts.append(Task("preconditioners are refreshed on every multiple of the interval[interval 1]", c04.mk_precond_cadence("one")))
+  for ra, rb in ((1, 2), (2, 1), (2, 3), (3, 1)):
+    ts.append(Task(f"exponent with a companion parameter[ranks {ra},{rb}]", mk_exponent_companion(ra, rb)))
   for r in (0, 1, 2, 3):
     for be in (True, False):
       ts.append(Task(f"skip decision[rank={r},best_effort={be}]", mk_skip(r, be)))
